@@ -64,6 +64,10 @@ def _task(t):
         # every template once in the nested position and once in the main program at -O2 -g (the configuration with the most
         # passes), slice `n` of 8
         sweep = [(tm, pos) for tm in stmtfuzz.TEMPLATES[n::8] for pos in (0.7, 0.1)]
+        # ... and written inside a single-line IF (after THEN / after ELSE / nested), main program
+        sweep += [(f, 0.1) for tm in stmtfuzz.TEMPLATES[n::8] for f in stmtfuzz.single_line_if_forms(tm)]
+        # ... and whole programs of shapes no placement produces, at every configuration
+        sweep += [(w, ('whole', o_, g_)) for w in stmtfuzz.WHOLE[n::8] for o_ in (0, 1, 2) for g_ in (False, True)]
     for k in range(len(sweep) if kind == 'sweep' else n):
         o = rng.randrange(3)
         g = rng.random() < 0.5
@@ -74,7 +78,10 @@ def _task(t):
                 tmpl, w = sweep[k]
                 o, g = 2, True
             st_ = stmtfuzz.fill(rng, tmpl)
-            if w < 0.6:
+            if isinstance(w, tuple):
+                _, o, g = w
+                src = st_
+            elif w < 0.6:
                 src = stmtfuzz.HEAD + st_ + stmtfuzz.TAIL
             elif w < 0.8:
                 src = stmtfuzz.HEAD + 'IF 1 THEN\nFOR i% = 1 TO 2\n' + st_ + '\nNEXT\nEND IF' + stmtfuzz.TAIL
